@@ -3,9 +3,10 @@
 //! against the real code and by the replay finder.  No verification logic lives here.
 //!
 //! job line:  P=<0-5> [seed=<u64>|hex=<bytes>] [min=<n>] [max=<n>] [mut=a,b,..] [rate=<f64>]
-//!            [unsafe=1] [ext=1] [buffer=1] [calls=<spec>;<spec>..]
+//!            [unsafe=1] [ext=1] [buffer=1] [cfgfirst=1] [calls=<spec>;<spec>..]
 //!   calls spec: seed | hex:<bytes> | reset | fresh:<bytes> | freshseed   (fresh*: same call on a NEW generator with the same config)
-//! output line: ok <hex>[,<hex>...]   or   err <message>   or   panic
+//!   state=1: append ` | <depth>;<mark positions>;<memo keys>` (simulated machine after the last call on the generator)
+//! output line: ok <hex>[,<hex>...][ | <state>]   or   err <message>   or   panic
 use pickle_fuzzer::{Generator, MutatorKind, Version};
 use std::io::{BufRead, Write};
 
@@ -16,7 +17,7 @@ fn hex(b: &[u8]) -> String {
     b.iter().map(|x| format!("{:02x}", x)).collect()
 }
 
-fn run(line: &str) -> Result<Vec<Vec<u8>>, String> {
+fn run(line: &str) -> Result<(Vec<Vec<u8>>, Option<String>), String> {
     let mut p = 2usize;
     let mut seed: Option<u64> = None;
     let mut bytes: Option<Vec<u8>> = None;
@@ -25,6 +26,8 @@ fn run(line: &str) -> Result<Vec<Vec<u8>>, String> {
     let mut rate: Option<f64> = None;
     let (mut uns, mut ext, mut buf) = (false, false, false);
     let mut calls: Vec<String> = vec![];
+    let mut cfgfirst = false;
+    let mut want_state = false;
     for kv in line.split_whitespace() {
         let (k, v) = kv.split_once('=').ok_or("bad token")?;
         match k {
@@ -38,6 +41,8 @@ fn run(line: &str) -> Result<Vec<Vec<u8>>, String> {
             "unsafe" => uns = v == "1",
             "ext" => ext = v == "1",
             "buffer" => buf = v == "1",
+            "cfgfirst" => cfgfirst = v == "1",
+            "state" => want_state = v == "1",
             "calls" => calls = v.split(';').map(|s| s.to_string()).collect(),
             _ => return Err(format!("unknown key {}", k)),
         }
@@ -45,11 +50,27 @@ fn run(line: &str) -> Result<Vec<Vec<u8>>, String> {
     let make = || -> Result<Generator, String> {
         let version = Version::try_from(p).map_err(|e| e.to_string())?;
         let mut g = Generator::new(version);
+        // "enabled" means the builder was called with true; a flag that is not enabled is never touched
+        // (a builder that writes the wrong field must not be masked by a later call).  cfgfirst=1 applies
+        // the opt-in flags before the other builders instead of after them.
+        if cfgfirst {
+            if buf { g = g.with_buffer_opcodes(true); }
+            if ext { g = g.with_ext_opcodes(true); }
+            if uns { g = g.with_unsafe_mutations(true); }
+        }
         if let Some(s) = seed { g = g.with_seed(s); }
-        if let Some(m) = min { g = g.with_min_opcodes(m); }
-        if let Some(m) = max { g = g.with_max_opcodes(m); }
+        if let (Some(a), Some(b), true) = (min, max, cfgfirst) {
+            g = g.with_opcode_range(a, b);
+        } else {
+            if let Some(m) = min { g = g.with_min_opcodes(m); }
+            if let Some(m) = max { g = g.with_max_opcodes(m); }
+        }
         if let Some(r) = rate { g = g.with_mutation_rate(r); }
-        g = g.with_unsafe_mutations(uns).with_ext_opcodes(ext).with_buffer_opcodes(buf);
+        if !cfgfirst {
+            if uns { g = g.with_unsafe_mutations(true); }
+            if ext { g = g.with_ext_opcodes(true); }
+            if buf { g = g.with_buffer_opcodes(true); }
+        }
         for m in &muts {
             let kind = match m.as_str() {
                 "bitflip" => MutatorKind::Bitflip, "boundary" => MutatorKind::Boundary,
@@ -87,7 +108,18 @@ fn run(line: &str) -> Result<Vec<Vec<u8>>, String> {
             return Err(format!("bad call {}", c));
         }
     }
-    Ok(outs)
+    // state=1: the simulated machine the generator is left with (public fields), for the C17 end-state comparison:
+    // depth ; positions of MARK slots ; sorted memo keys
+    let st = if want_state {
+        let inner = &g.state.stack.inner;
+        let marks: Vec<String> = inner.iter().enumerate()
+            .filter(|(_, c)| format!("{:?}", &*c.borrow()).starts_with("Mark"))
+            .map(|(i, _)| i.to_string()).collect();
+        let mut keys: Vec<usize> = g.state.memo.keys().copied().collect();
+        keys.sort_unstable();
+        Some(format!("{};{};{}", inner.len(), marks.join("."), keys.iter().map(|k| k.to_string()).collect::<Vec<_>>().join(".")))
+    } else { None };
+    Ok((outs, st))
 }
 
 fn main() {
@@ -101,7 +133,8 @@ fn main() {
         let l2 = line.clone();
         let r = std::panic::catch_unwind(move || run(&l2));
         match r {
-            Ok(Ok(outs)) => writeln!(out, "ok {}", outs.iter().map(|o| hex(o)).collect::<Vec<_>>().join(",")).unwrap(),
+            Ok(Ok((outs, st))) => writeln!(out, "ok {}{}", outs.iter().map(|o| hex(o)).collect::<Vec<_>>().join(","),
+                                            st.map(|s| format!(" | {}", s)).unwrap_or_default()).unwrap(),
             Ok(Err(e)) => writeln!(out, "err {}", e.replace('\n', " ")).unwrap(),
             Err(_) => writeln!(out, "panic").unwrap(),
         }
